@@ -185,6 +185,32 @@ def handleSharks (toks : List String) : String :=
       | some (.panic _) => "panic"
       | some (.ok (_, polys)) => "ok " ++ hexs ((nextShares polys nn 0).map Sharks.shareToBytes)
     | _, _, _, _ => "bad-op"
+  | ["sharks.iter", t, secret, sd, pats] =>
+    match t.toNat?, Bytes.ofHex secret, sd.toNat? with
+    | some t, some sec, some sd =>
+      match Sharks.dealerRng smNext fuel t sec (UInt64.ofNat sd) with
+      | none => "fuel"
+      | some (.err _) => "err"
+      | some (.panic _) => "panic"
+      | some (.ok (_, polys)) =>
+        -- positions the std Iterator adaptors visit, counted in calls of `next` (1-based)
+        let step := fun (acc : Nat × List Nat) (tok : String) =>
+          let (pos, out) := acc
+          match tok.splitOn ":" with
+          | ["next"] => (pos + 1, out ++ [pos + 1])
+          | ["nth", n] => let n := n.toNat!; (pos + n + 1, out ++ [pos + n + 1])
+          | ["skip", n, c] =>
+            let n := n.toNat!; let c := c.toNat!
+            (pos + n + c, out ++ (List.range c).map (fun i => pos + n + i + 1))
+          | ["step", st, c] =>
+            let st := st.toNat!; let c := c.toNat!
+            -- StepBy: first item is the next one, every further item `st` positions later
+            (pos + 1 + (c - 1) * st, out ++ (List.range c).map (fun i => pos + 1 + i * st))
+          | ["take", c] => let c := c.toNat!; (pos + c, out ++ (List.range c).map (fun i => pos + i + 1))
+          | _ => (pos, out)
+        let xs := ((pats.splitOn ",").foldl step (0, [])).2
+        "ok " ++ hexs (xs.map fun n => Sharks.shareToBytes (Sharks.evaluate polys (n % Fp.p)))
+    | _, _, _ => "bad-op"
   | ["sharks.recover", t, shares] =>
     match t.toNat?, parseSharksShares shares with
     | some t, some sh => showOutcomeBytes (Sharks.recover t sh)
